@@ -171,13 +171,27 @@ def align(state, count: uint16) -> bytes:
     return b"\x00" * ((-wait(state["emit_address"])) % count)
 
 
+MAX_REPETITIONS = 2 ** 16
+
+
 # TODO: Macro-11 seems to have .rept metacommand. That is probably the same as
 # .repeat but '.rept X [code] .endr' instead of '.repeat X { [code] }'
 @metacommand
 def repeat(state, repetitions_count: uint, body: CodeBlock) -> bytes:
+    compiler = state["compiler"]
     addr = state["emit_address"]
     result = b""
     for _ in range(repetitions_count):
+        # A program cannot hold more than 64 KiB, so this many repetitions (of
+        # all '.repeat' blocks together) cannot be meant: stop instead of
+        # looping for hours or running out of memory
+        compiler.repetitions_compiled += 1
+        if compiler.repetitions_compiled > MAX_REPETITIONS:
+            reports.error(
+                "value-out-of-bounds",
+                (state["insn"].ctx_start, state["insn"].ctx_end, f"Too many repetitions: the '.repeat' blocks of this program are repeated more than {MAX_REPETITIONS} times in total")
+            )
+            break
         chunk = state["compiler"].compile_block({**state, "context": "repeat"}, body, addr)
         if isinstance(chunk, BaseDeferred):
             addr += chunk.length()
